@@ -232,6 +232,10 @@ impl Scenario for C06 {
         if st.then_eof && cs.choose("eof_with_last_segment", 2) == 1 {
             broker.raw_eof_with_last_segment = true;
         }
+        // a third of the runs: empty readable wake-ups between segments (a read that answers would-block at once)
+        if cs.choose("empty_wakeups", 3) == 0 {
+            broker.spurious_permille = 400;
+        }
         if mode == 4 {
             broker.glue_after_open_ok = Some((preamble(), spec.params.get(1).copied().unwrap_or(0) as usize, GAP));
         }
@@ -275,6 +279,13 @@ impl Scenario for C06 {
         let start = match start {
             Some(x) => x,
             None => {
+                // the cooperative part of the session (real frames, whole segments, would-blocks) must not end the
+                // connection before the stream under test even starts
+                let close = res.hist.conn.iter().find_map(|c| if let ConnRec::Close { result, .. } = c { Some(result.clone()) } else { None });
+                if let Some(Err(e)) = close {
+                    rep.violate("ending", format!("before-the-stream:{}", e.split('(').next().unwrap_or("")), format!("the connection ended with {} before the server stream under test began (only the handshake, channel opens and consumes had happened)", e));
+                    return rep;
+                }
                 rep.inconclusive = Some("stream was never injected".into());
                 return rep;
             }
